@@ -11,7 +11,7 @@ PIPE_NOTE = ('Trusted: TLC; the virtual-time asyncio loop (integer-microsecond c
 CHECKS = {
  'C03': (True, 'model_checking',
          'TLA+ spec NdnPit checked exhaustively by TLC (focused configurations, both front-ends, liveness on a small one); TLC graph transition cover + random schedules executed on appv2.NDNApp and app.NDNApp over a virtual-time loop; every execution validated by TLC (NdnPitTrace)',
-         'TLC explores every interleaving of express / Data / Nack / timer expiry / validator completion / caller cancel / shutdown / junk / reconnect over up to 3 pending Interests on same and nested names (CanBePrefix, implicit digest and both, lifetimes 1-2 ticks and the default lifetime, deferred await, cancellation in flight) and checks OnceOnly, RightOutcome, NoResidue, AllAndOnlyMatching, NoUnvalidatedData, JunkInert and Finishes. Schedules covering every transition of a smaller graph, and random larger schedules (6 Interests, 6 names, 40 events, same-instant races in both orders), are driven into both real front-ends; after every stimulus the outcome of every awaitable, its completion instant, the pending-table size, validator invocations and any internal error are recorded and the trace is accepted only if it is a behaviour of NdnPit. The implementation-level model NdnPitImpl (trie of node objects, waiter references, validator tasks) is checked to refine NdnPit. The connection life cycle (AppLife.tla: main_loop ending by shutdown / peer / cancellation / failing after_start, reconnect) is replayed into both front-ends and the pending / outcome variables compared.',
+         'TLC explores every interleaving of express / Data / Nack / timer expiry / validator completion / caller cancel / shutdown / junk / reconnect over up to 3 pending Interests on same and nested names (CanBePrefix, implicit digest and both, lifetimes 1-2 ticks and the default lifetime, deferred await, cancellation in flight) and checks OnceOnly, RightOutcome, NoResidue, AllAndOnlyMatching, NoUnvalidatedData, JunkInert and Finishes. Schedules covering every transition of a smaller graph, and random larger schedules (6 Interests, 6 names, 40 events, same-instant races in both orders), are driven into both real front-ends; after every stimulus the outcome of every awaitable, its completion instant, the pending-table size, validator invocations and any internal error are recorded and the trace is accepted only if it is a behaviour of NdnPit. The implementation-level model NdnPitImpl (trie of node objects, waiter references, validator tasks) is checked to refine NdnPit. The connection life cycle (AppLife.tla: main_loop ending by shutdown / peer / cancellation / failing after_start, reconnect) is replayed into both front-ends and the pending / outcome variables compared. A packet served in the same loop iteration as the due lifetime timers (packet first) is a stimulus of its own (RecvDataFire), and Data packets come with a Content element, an empty one and none.',
          PIPE_NOTE + ' Known finding KF-legacy-slow-validator is modelled as deviation legacySlowValidator (off in the strict pass).',
          'DESIGN.md 5.1, 6/C03'),
  'C04': (True, 'model_checking',
@@ -26,7 +26,7 @@ CHECKS = {
          'DESIGN.md 5.1, 6/C05'),
  'C06': (True, 'model_checking',
          'TLA+ spec Framing (all chunkings as Feed interleavings) checked by TLC and bound to the real StreamFace.run via FramingTrace; RecvJunk inertness in NdnPit/NdnFib checked by TLC and bound by delivering a mutation corpus in random pipeline states of both front-ends and to the datagram handler',
-         'Framing: TLC enumerates packet sequences with 1/3/5/9-byte type and length forms, every truncation point and every way of cutting the stream into reads, checking that exactly the complete packets are delivered once, in order, never early, and that the reader stops at end of stream. The transition cover, every chunking x truncation of short streams and random chunkings of streams with real multi-byte lengths run on a real asyncio.StreamReader + StreamFace.run and are judged by TLC; UnixFace and TcpFace are also run over loopback sockets against an in-process server (chunked writes, orderly close, RST) and their final state judged by the same trace module. Robustness: >2000 malformed / truncated / fragment / unknown / unaddressed byte strings are delivered through _receive of both front-ends in random PIT/FIB states (and to UdpFace.datagram_received); the trace is accepted only if the junk step changes nothing, raises nothing, and the untouched Interests still complete as the spec says; every second application runs with DEBUG logging so that the debug branches of the receive path are executed too.',
+         'Framing: TLC enumerates packet sequences with 1/3/5/9-byte type and length forms, every truncation point and every way of cutting the stream into reads, checking that exactly the complete packets are delivered once, in order, never early, and that the reader stops at end of stream. The transition cover, every chunking x truncation of short streams and random chunkings of streams with real multi-byte lengths run on a real asyncio.StreamReader + StreamFace.run and are judged by TLC; UnixFace and TcpFace are also run over loopback sockets against an in-process server (chunked writes, orderly close, RST) and their final state judged by the same trace module. Robustness: >2000 malformed / truncated / fragment / unknown / unaddressed byte strings are delivered through _receive of both front-ends in random PIT/FIB states (and to UdpFace.datagram_received); the trace is accepted only if the junk step changes nothing, raises nothing, and the untouched Interests still complete as the spec says; every second application runs with DEBUG logging so that the debug branches of the receive path are executed too. The corpus also holds Interests with the intact Name of something pending or attached and ill-formed octets behind it, bare and under a Nack header.',
          PIPE_NOTE + ' Mutants of packets that address pending state are used only when the independent strict TLV reader finds them structurally malformed.',
          'DESIGN.md 5.2, 6/C06'),
  'C09': (True, 'model_checking',
@@ -36,7 +36,7 @@ CHECKS = {
          'DESIGN.md 5.4, 6/C09'),
  'C19': (True, 'model_checking',
          'TLA+ spec SegFetch checked exhaustively by TLC; TLC state-graph transition cover replayed on segment_fetcher; recorded executions validated by TLC (SegFetchTrace)',
-         'TLC visits every object shape x discovery answer x final marker x retry limit x loss/Nack/validation-failure pattern in the bound and checks InOrderOnce, DoneComplete, RetryBound, FailsIffExhausted, NoSkip, Terminates; every transition of that graph is then driven through the real generator on a virtual-time loop with the projection compared after each step, and larger random executions (also two concurrent fetches on one application) are accepted only if SegFetchTrace can explain every event. Dimensions the model abstracts from are varied with the configuration (FinalBlockId on every / the last / the last two segments, an empty segment, default arguments, name as str / list / wire). SegFetchInd is an inductive invariant discharged by Apalache for unbounded sizes and SegFetchRef a refinement checked by TLC.',
+         'TLC visits every object shape x discovery answer x final marker x retry limit x loss/Nack/validation-failure pattern in the bound and checks InOrderOnce, DoneComplete, RetryBound, FailsIffExhausted, NoSkip, Terminates; every transition of that graph is then driven through the real generator on a virtual-time loop with the projection compared after each step, and larger random executions (also two concurrent fetches on one application) are accepted only if SegFetchTrace can explain every event. Dimensions the model abstracts from are varied with the configuration (FinalBlockId on every / the last / the last two segments, an empty segment, default arguments, name as str / list / wire). SegFetchInd is an inductive invariant discharged by Apalache for unbounded sizes and SegFetchRef a refinement checked by TLC. An answer arriving in the instant the lifetime runs out (RespDataLate, also in the same loop iteration as the timer) may count as answered or as timed out, nothing else; segments may lack a Content element.',
          'Trusted: TLC, the virtual-time loop, the harness producer. Bounded: <=4 segments/3 retries exhaustively, <=12 segments/5 retries in traces.',
          'DESIGN.md 6/C19'),
  'C20': (True, 'model_checking',
@@ -55,7 +55,7 @@ CHECKS.update({
          'DESIGN.md 5.3, 6/C01'),
  'C02': (True, 'model_checking',
          'TLA+ range/region/edit algebra (NdnPackets) checked by TLC; recording signer + parser ranges + hashlib/PyCryptodome on the spec ranges; exhaustive single-byte substitution, truncation and TLV-level edits judged with TLC verdict table; recorded ranges and tamper outcomes judged by TLC',
-         'TLC proves on every enumerated configuration that SignedRange/DigestRange are the NDN-specified ones, properly nested, equal to what the marker arithmetic computes after the shrink, and that any change inside them is classed must-reject; on real wires the bytes handed to the signer, the bytes reported by parse_* and the spec ranges are compared for equality, the matching verifiers and an independent PyCryptodome call must accept, and then every byte offset (2-3 substitutions), every truncation and every tabled TLV edit is applied with TLC region/edit table deciding the expected verdict; larger random packets are recorded and judged by TLC.',
+         'TLC proves on every enumerated configuration that SignedRange/DigestRange are the NDN-specified ones, properly nested, equal to what the marker arithmetic computes after the shrink, and that any change inside them is classed must-reject; on real wires the bytes handed to the signer, the bytes reported by parse_* and the spec ranges are compared for equality, the matching verifiers and an independent PyCryptodome call must accept, and then every byte offset (2-3 substitutions), every truncation and every tabled TLV edit is applied with TLC region/edit table deciding the expected verdict; larger random packets are recorded and judged by TLC. Name-level edits include one more component of the parameters-digest type (32 or 4 octets, every position) and the digest component repeated: must-reject.',
          'Unforgeability of the primitives assumed; exhaustive byte-level tampering on wires <=400 bytes, sampled offsets on larger ones; verdict for the SignatureValue length byte and for out-of-order recognised elements is "either" (C07 territory).',
          'DESIGN.md 5.3, 6/C02'),
  'C10': (True, 'model_checking',
